@@ -680,6 +680,15 @@ def helper_case_of_trace(case: dict, res: dict, sid: int) -> tuple[dict, dict] |
 
 
 # ----------------------------------------------------------------------------------------------- direct helper runs
+def value_kind(x: float) -> str:
+    """Canonical description of a float result (NaN is a value of its own, not "no value")."""
+    if x != x:
+        return "nan"
+    if x in (float("inf"), float("-inf")):
+        return "inf" if x > 0 else "-inf"
+    return repr(float(x))
+
+
 def run_helper_case(case: dict) -> dict:
     """Drive the real `_ResamplingHelper` synchronously with the events of `case`."""
     from frequenz.quantities import Quantity
@@ -691,9 +700,20 @@ def run_helper_case(case: dict) -> dict:
     ident: dict[int, int] = {}  # id(Sample object) -> id of the event; the objects are kept alive in `fed`
     fed: list = []
 
+    fn_kinds = case.get("fn") or ["index"]  # what the resampling function returns, call after call (cyclic)
+    returned: list = []
+
     def resampling_function(samples, config, props):  # type: ignore[no-untyped-def]
         calls.append([ident.get(id(s)) for s in samples])
-        return float(len(calls) - 1)
+        kind = fn_kinds[(len(calls) - 1) % len(fn_kinds)]
+        if kind == "average":  # the stock function of the SDK (NaN for a window holding +inf and -inf)
+            from frequenz.sdk.timeseries._resampling import average
+            r = average(samples, config, props)
+        else:
+            r = {"index": float(len(calls) - 1), "nan": float("nan"), "inf": float("inf"), "-inf": float("-inf"),
+                 "zero": 0.0, "negzero": -0.0, "tiny": 5e-324}[kind]
+        returned.append(r)
+        return r
 
     kwargs: dict = {}
     if case.get("max_len", 1024) != 1024:
@@ -704,6 +724,7 @@ def run_helper_case(case: dict) -> dict:
                              initial_buffer_len=case["init_len"], **kwargs)
     helper = _ResamplingHelper("h", config)
     ticks = []
+    vals: list = []  # per tick: was the function called, what did it return, what was emitted (canonical kinds)
     for e in case["events"]:
         if e["op"] in ("recv", "add"):
             if e.get("none") or e.get("nan"):
@@ -719,25 +740,30 @@ def run_helper_case(case: dict) -> dict:
             fed.append(sample)
             helper.add_sample(sample)
         else:
+            n_calls = len(calls)
             try:
                 out = helper.resample(dt(e["T"]))
             except ZeroDivisionError:
                 ticks.append({"rel": [], "none": False, "err": True, "maxlen": helper._buffer.maxlen,  # pylint: disable=protected-access
                               "ip": td_us(helper.source_properties.sampling_period)})
+                vals.append(None)
                 e["est"] = td_us(helper.source_properties.sampling_period)
                 continue
             if us_of(out.timestamp) != e["T"]:
                 raise AssertionError("helper changed the timestamp")
-            if out.value is None:
-                rel: list = []
-            else:
-                rel = calls[int(out.value.base_value)]
+            if len(calls) > n_calls + 1:
+                raise AssertionError("the resampling function was called more than once in one tick")
+            # what was handed to the resampling function at this tick (nothing: it was not called)
+            rel: list = calls[-1] if len(calls) == n_calls + 1 else []
             ip = td_us(helper.source_properties.sampling_period)
             e["est"] = ip
             ticks.append({"rel": rel, "none": out.value is None, "err": False,
                           "maxlen": helper._buffer.maxlen, "ip": ip})  # pylint: disable=protected-access
+            vals.append({"called": len(calls) == n_calls + 1,
+                         "returned": value_kind(returned[-1]) if len(calls) == n_calls + 1 else None,
+                         "emitted": None if out.value is None else value_kind(out.value.base_value)})
     buf = [ident.get(id(s)) for s in helper._buffer]  # pylint: disable=protected-access
-    return {"ticks": ticks, "buf": buf}
+    return {"ticks": ticks, "buf": buf, "vals": vals}
 
 
 # ----------------------------------------------------------------------------------------------- C08 oracle
@@ -779,6 +805,7 @@ def c08_oracle(case: dict, impl: dict) -> list[tuple[str, Any]]:
     stamps = {}
     ip_prev: int | None = None
     ticks = iter(impl["ticks"])
+    n_tick = 0
     for e in case["events"]:
         if e["op"] in ("recv", "add"):
             stamps[e["id"]] = e["ts"]
@@ -790,6 +817,7 @@ def c08_oracle(case: dict, impl: dict) -> list[tuple[str, Any]]:
         t = next(ticks)
         if t["err"]:
             fails.append(("no-value-emitted", {"T": e["T"], "input_period": t["ip"], "note": "the helper raised"}))
+            n_tick += 1
             continue
         T = e["T"]
         # The configured buffer: `initial_buffer_len` until the input period is known; from the tick that estimates it
@@ -827,6 +855,16 @@ def c08_oracle(case: dict, impl: dict) -> list[tuple[str, Any]]:
             fails.append(("invalid-passed", {"T": T, "passed": t["rel"]}))
         if t["none"] != (len(expect) == 0):
             fails.append(("none-iff-empty", {"T": T, "expected": expect, "emitted_none": t["none"]}))
+        v = (impl.get("vals") or [None] * (n_tick + 1))[n_tick]
+        if v is not None:
+            # the emitted value is the resampling function's result on the relevant samples — whatever that result is
+            # (NaN, ±inf, 0 are results, not "no value") — and the function is called exactly when there are some
+            if v["called"] != (len(expect) > 0):
+                fails.append(("function-called-iff-nonempty", {"T": T, "expected": expect, "called": v["called"]}))
+            if v["called"] and v["emitted"] != v["returned"]:
+                fails.append(("value-is-function-result", {"T": T, "passed": t["rel"], "function_returned": v["returned"],
+                                                           "emitted": v["emitted"]}))
+        n_tick += 1
     return fails
 
 
@@ -917,6 +955,20 @@ def gen_helper_case(rng: random.Random, ordered: bool = True, exotic: bool = Fal
     if not ordered:
         tags.append("unordered")
     case = {"kind": "helper", "period": p, "max_age": max_age, "init_len": init_len, "max_len": max_len, "events": events}
+    r = rng.random()
+    if r < 0.30:
+        # the resampling function's results are arbitrary floats: NaN / ±inf / ±0 / denormal are results like any other;
+        # `average` is the SDK's stock function (NaN over a window that holds +inf and -inf)
+        if r < 0.08:
+            case["fn"] = ["average"]
+            if rng.random() < 0.7:  # make a window with both infinities likely
+                recvs = [e for e in events if e["op"] == "recv" and not (e["nan"] or e["none"])]
+                for e, v in zip(rng.sample(recvs, min(len(recvs), rng.randint(2, 6))), ["inf", "-inf"] * 3):
+                    e["inf"], e["v"] = True, v
+                tags.append("infinite-sample")
+        else:
+            case["fn"] = [rng.choice(["nan", "inf", "-inf", "zero", "negzero", "tiny", "index"]) for _ in range(rng.randint(1, 4))]
+        tags += [f"fn-{k}" for k in sorted(set(case["fn"]))]
     return case, tags
 
 
